@@ -151,6 +151,9 @@ Inductive effect :=
 | ELoad (n : name)                  (* certificate bundle (key, certificate) of n read from storage *)
 | EMeta (n : name)                  (* metadata of the cached certificate n read for an ARI refresh *)
 | EIssue (n : name)                 (* Issuer.Issue for subject n *)
+| EManager (n : name)               (* cfg.OnDemand.Managers consulted for the handshake of n (no policy
+                                       evaluation comes first: an external manager is neither the issuer
+                                       nor storage) *)
 | EEvict (id : N)                   (* certificate removed from the cache *)
 | ESelfWait (n : name).             (* waits on the obtain channel it registered itself (until time-out) *)
 
@@ -165,11 +168,22 @@ Inductive result :=
 | RCert (id : N)
 | REmpty                 (* empty certificate, nil error: never produced by the model (only decoded
                             from an observation of the implementation) *)
-| RErr (k : N).          (* 1 name error, 2 not allowed, 3 no certificate, 4 obtain/renew failed *)
+| RErr (k : N).          (* 1 name error, 2 not allowed, 3 no certificate, 4 obtain/renew failed,
+                            5 manager error *)
+
+(** what the external certificate managers (cfg.OnDemand.Managers) answer for this handshake *)
+Inductive mgr :=
+| MgrNone                  (* no manager configured *)
+| MgrEmpty                 (* every manager returns (nil, nil) *)
+| MgrCert (id : N)         (* a manager returns a certificate *)
+| MgrErr.                  (* the last manager asked returned an error and none a certificate *)
 
 Record hello := Hello {
   h_name : option name;    (* getNameFromClientHello(hello): None = error (oracle: idna) *)
   h_hit : option N;        (* certificate selected from the cache by getCertificateFromCache (oracle) *)
+  h_default : option N;    (* no match, but a certificate for DefaultServerName / FallbackServerName is
+                              cached: getCertificateFromCache's "defaulted" certificate (oracle) *)
+  h_mgr : mgr;             (* answer of the managers, were they asked *)
   h_issue_ok : bool;       (* outcome of Issuer.Issue calls made during this handshake *)
   h_vanish : bool          (* the bundle this handshake loads is deleted (by a storage cleaner / another
                               instance) right after it has been read *)
@@ -367,6 +381,33 @@ Section WithSpace.
   Definition res_of (m : mres) : result :=
     match m with MCert x => RCert (c_id x) | _ => RErr 4 end.
 
+  (** the end of getCertDuringHandshake: the defaulted certificate if there is one, else an error *)
+  Definition fallback (h : hello) : result :=
+    match h_default h with Some id => RCert id | None => RErr 3 end.
+
+  (** getCertDuringHandshake from the policy gate on (cache miss, the managers yielded nothing) *)
+  Definition after_mgr (fuel : nat) (w : world) (h : hello) (n : name) (load : bool) : out result :=
+    let '(ge, allowed, w1) := gate w n false in
+    if negb allowed then (ge, [], RErr 2, w1)
+    else if (od_on w1 || almost_full w1) && load then
+      let '(e, k, r, w2) := load_and_maintain (S fuel) w1 h n false in
+      match r with
+      | Some (MCert x) => (ge ++ e, k, RCert (c_id x), w2)
+      | Some _ =>
+          (* the maintenance of the loaded certificate failed: no obtain (the bundle is in
+             storage) [fix 5058ec2]; the defaulted certificate or an error *)
+          (ge ++ e, k, fallback h, w2)
+      | None =>
+          if od_on w2 then
+            let '(e2, k2, m, w3) := obtain_on_demand (load_and_maintain fuel) w2 h n in
+            (ge ++ e ++ e2, k ++ k2, res_of m, w3)
+          else (ge ++ e, k, fallback h, w2)
+      end
+    else (ge, [], fallback h, w1).
+
+  (** getCertFromAnyCertManager is a no-op unless on-demand is on and managers are configured *)
+  Definition mgr_view (w : world) (h : hello) : mgr := if od_on w then h_mgr h else MgrNone.
+
   (** getCertDuringHandshake as the only handshake in flight. [load] = loadOrObtainIfNecessary. *)
   Definition get_cert (fuel : nat) (w : world) (h : hello) (load : bool) : out result :=
     let hit := match h_hit h with Some id => cache_find id w | None => None end in
@@ -384,22 +425,14 @@ Section WithSpace.
         match h_name h with
         | None => ([], [], RErr 1, w)
         | Some n =>
-            let '(ge, allowed, w1) := gate w n false in
-            if negb allowed then (ge, [], RErr 2, w1)
-            else if (od_on w1 || almost_full w1) && load then
-              let '(e, k, r, w2) := load_and_maintain (S fuel) w1 h n false in
-              match r with
-              | Some m =>
-                  (* a certificate, or the maintenance of the loaded certificate failed: then no
-                     obtain (the bundle is in storage), the handshake fails *)
-                  (ge ++ e, k, res_of m, w2)
-              | None =>
-                  if od_on w2 then
-                    let '(e2, k2, m, w3) := obtain_on_demand (load_and_maintain fuel) w2 h n in
-                    (ge ++ e ++ e2, k ++ k2, res_of m, w3)
-                  else (ge ++ e, k, RErr 3, w2)
-              end
-            else (ge, [], RErr 3, w1)
+            (* (the load single-flight section is C13's); the managers come before the gate, and
+               also when loading is disabled *)
+            match mgr_view w h with
+            | MgrNone => after_mgr fuel w h n load
+            | MgrEmpty => let '(e, k, r, w') := after_mgr fuel w h n load in (EManager n :: e, k, r, w')
+            | MgrCert id => ([EManager n], [], RCert id, w)
+            | MgrErr => ([EManager n], [], RErr 5, w)
+            end
         end
     end.
 
